@@ -45,6 +45,21 @@ fn local_case(p: &FsTzdbProvider, zone: &str, local_s: i64, fails: &mut Vec<Fail
 /// named transition and the queried instant, and answers do not depend on earlier queries.
 pub fn search(rng: &mut Rng, budget: u64, fails: &mut Vec<Failure>) {
     let p = FsTzdbProvider::default();
+    // history independence across zones (C15 last sentence): a provider that has answered for zone A answers for zone B
+    // what a fresh provider answers - also when the two names share a long prefix
+    for (a, b) in [("America/Indiana/Indianapolis", "America/Indiana/Knox"), ("America/Indiana/Knox", "America/Indiana/Indianapolis"), ("America/Argentina/Buenos_Aires", "America/Argentina/Ushuaia"),
+        ("America/North_Dakota/Center", "America/North_Dakota/New_Salem"), ("America/Kentucky/Louisville", "America/Kentucky/Monticello"), ("Europe/London", "Europe/Lisbon"), ("Asia/Tokyo", "Asia/Tehran")] {
+        let shared = FsTzdbProvider::default();
+        for t_s in [-1_000_000_000i64, 0, 962_000_000, 1_594_000_000, 1_700_000_000] {
+            let t = t_s as i128 * 1_000_000_000;
+            let _ = catch_unwind(AssertUnwindSafe(|| shared.get_named_tz_offset_nanoseconds(a, t)));
+            let got = catch_unwind(AssertUnwindSafe(|| shared.get_named_tz_offset_nanoseconds(b, t).ok().map(|r| r.offset)));
+            let fresh = FsTzdbProvider::default();
+            let want = catch_unwind(AssertUnwindSafe(|| fresh.get_named_tz_offset_nanoseconds(b, t).ok().map(|r| r.offset)));
+            if let (Ok(g), Ok(w)) = (&got, &want) { if g != w { fails.push(Failure { what: "answer depends on the zones queried earlier".into(), input: format!("{b} epoch_s={t_s} after querying {a} on the same provider"), expected: format!("{w:?} (fresh provider)"), observed: format!("{g:?}") }); } }
+        }
+        if fails.len() >= 5 { return; }
+    }
     // before the first transition of the table local time type 0 is in force (RFC 8536 section 3.2): Local Mean Time for the
     // IANA zones below (values of the zone files; unchanged across tzdata releases), in both directions
     for (zone, lmt) in [("America/New_York", -17762i64), ("Europe/London", -75), ("Australia/Sydney", 36292), ("Asia/Kolkata", 21208), ("Asia/Tokyo", 33539), ("America/Toronto", -19052), ("Europe/Moscow", 9017)] {
